@@ -216,31 +216,29 @@ func (w *World) CheckC11(op string) *Violation {
 			continue
 		}
 		seen[e]++
-		if seen[e] > 1 {
-			return v("table-duplicate", "%v is reported %d times by the table", se, seen[e])
-		}
 		if p, ok := lastPos[se.Src]; ok && p > se.ID {
 			return v("table-order", "errors from source %s are out of order (%v after #%d)", se.Src, se, p)
 		}
 		lastPos[se.Src] = se.ID
 	}
+	want := map[error]int{}
 	for _, e := range w.expErrs {
-		if seen[e] == 0 {
+		want[e]++
+	}
+	for _, e := range w.expErrs {
+		if seen[e] < want[e] {
+			if want[e] > 1 {
+				return v("table-lost-repeated", "%v was raised %d times on the table (or rows now attached) but the table reports it %d times", e, want[e], seen[e])
+			}
 			return v("table-lost", "%v was raised on the table (or a row now attached) but the table does not report it", e)
 		}
 	}
-	if len(seen) != len(w.expErrs) {
-		for e := range seen {
-			found := false
-			for _, x := range w.expErrs {
-				if x == e {
-					found = true
-					break
-				}
-			}
-			if !found {
-				return v("table-unexpected", "%v is reported by the table but was raised on a row that is still detached", e)
-			}
+	for e, n := range seen {
+		if want[e] == 0 {
+			return v("table-unexpected", "%v is reported by the table but was raised on a row that is still detached", e)
+		}
+		if n > want[e] {
+			return v("table-duplicate", "%v was raised %d time(s) but is reported %d times by the table", e, want[e], n)
 		}
 	}
 	if unknown != w.unknownErr {
